@@ -9,6 +9,7 @@ import Ahbicht.Model.Extract
 import Ahbicht.Model.Val
 import Ahbicht.Model.Full
 import Ahbicht.Model.Time
+import Ahbicht.Model.Iso
 import Ahbicht.Model.Json
 import Ahbicht.Model.Heap
 import Ahbicht.Model.Async
@@ -397,6 +398,16 @@ def handle (j : Json) : Except String Json := do
     let f (k : String) : Except String Int := j.getObjValAs? Int k
     let w : Written := ⟨← f "y", ← f "m", ← f "d", ← f "H", ← f "M", ← f "S", ← f "off"⟩
     pure (Json.mkObj [("v931", hasNoUtcOffset w), ("strom", isStromtagLimit w), ("gas", isGastagLimit w)])
+  | "iso" =>
+    let s ← getStr j "s"
+    match parseIso s with
+    | .ok w =>
+      pure (Json.mkObj [("r", "ok"), ("y", Json.num (JsonNumber.fromInt w.y)), ("m", Json.num (JsonNumber.fromInt w.m)), ("d", Json.num (JsonNumber.fromInt w.d)),
+        ("H", Json.num (JsonNumber.fromInt w.hh)), ("M", Json.num (JsonNumber.fromInt w.mm)), ("S", Json.num (JsonNumber.fromInt w.ss)),
+        ("off", Json.num (JsonNumber.fromInt w.off)),
+        ("v931", hasNoUtcOffset w), ("strom", isStromtagLimit w), ("gas", isGastagLimit w)])
+    | .invalid => pure (Json.mkObj [("r", "invalid")])
+    | .unmodelled => pure (Json.mkObj [("r", "unmodelled")])
   | "roundtrip" =>
     let cls ← getStr j "cls"
     let w ← jOfWire (← j.getObjVal? "json")
